@@ -133,15 +133,27 @@ func callEffect(e *effects, self []util.Uint160, lax bool) bool {
 	return false
 }
 
-// onlyDeployedExtra: every context outside self is a deployed (non-native) contract.
+// onlyDeployedExtra: every context outside self (and every re-entered one of
+// self) is a deployed, non-native contract.
 func (en *engine) onlyDeployedExtra(e *effects, self []util.Uint160) bool {
+	w := en.w
+	dep := func(h util.Uint160) bool { return h == w.UA || h == w.UB || h == w.R.Hash }
 	n := 0
 	for h := range e.ctxs {
 		if slicesContains(self, h) {
 			continue
 		}
 		n++
-		if h != en.w.UA && h != en.w.UB && h != en.w.R.Hash {
+		if !dep(h) {
+			return false
+		}
+	}
+	for h, c := range e.inv {
+		if slicesContains(self, h) && c <= 1 {
+			continue
+		}
+		n++
+		if !dep(h) {
 			return false
 		}
 	}
